@@ -26,7 +26,7 @@ pub enum Task {
     /// chunk_get of one chunk with a byzantine answer (`how` as above, 2..5)
     ChunkGet { len: usize, how: u8 },
     /// fetch_and_decrypt_vault; replies = (peer, pad): pad = (counter, form) with form 0 valid, 1 unsigned,
-    /// 2 signed by another key, 3 inflated counter, 4 valid pad of another owner
+    /// 2 signed by another key, 3 inflated counter, 4 valid pad of another owner, 5 content substituted under the genuine counter and signature; form / 8 = variant. Replies with the same (counter, form) are byte-identical copies
     Vault { replies: Vec<(u8, u8, u8)>, finish: u8 },
 }
 
@@ -118,10 +118,14 @@ impl Sim for ClientSim {
                 1 => Task::ChunkGet { len: rng.urange(3, 5000), how: 2 + rng.below(5) as u8 },
                 _ => {
                     let n = rng.urange(0, 8);
+                    // swarm knob: few distinct versions, so that identical copies reach the read's quorum
+                    let few_versions = rng.chance(1, 2);
                     let replies = (0..n)
                         .map(|_| {
-                            let form = if rng.chance(1, 2) { 0 } else { 1 + rng.below(4) as u8 };
-                            (rng.below(8) as u8, rng.range(1, 5) as u8, form)
+                            // form % 8: 0 valid .. 5 substituted content; form / 8: variant (another pad with the same counter)
+                            let form = if rng.chance(1, 2) { 0 } else { 1 + rng.below(5) as u8 };
+                            let variant = if rng.chance(1, 6) { 1u8 } else { 0 };
+                            (rng.below(8) as u8, rng.range(1, if few_versions { 2 } else { 5 }) as u8, form + 8 * variant)
                         })
                         .collect();
                     Task::Vault { replies, finish: rng.below(4) as u8 }
